@@ -236,6 +236,43 @@ def shared_instance_state(ctx, facts, rule, rels):
     return ncls
 
 
+def caller_list_aliasing(ctx, facts, rule, rels):
+    """A block describes the structure it built.  A constructor that keeps the caller's list object (`self.ins = ins`) instead of its own copy lets a later
+    edit of that list by the caller change what the emitter / the schematic / a later propagate() reads, while the children built from it stay as they
+    were.  List-like parameter = iterated, indexed, or passed to len / enumerate / zip in the constructor."""
+    n = 0
+    bad = False
+    for lst in facts.classes.values():
+        for c in lst:
+            if c.rel not in rels:
+                continue
+            init = c.methods.get('__init__')
+            if init is None:
+                continue
+            n += 1
+            params = {a.arg for a in init.args.args[1:]}
+            listy = set()
+            for x in ast.walk(init):
+                if isinstance(x, (ast.For, ast.comprehension)) and isinstance(x.iter, ast.Name) and x.iter.id in params:
+                    listy.add(x.iter.id)
+                if isinstance(x, ast.Call) and isinstance(x.func, ast.Name) and x.func.id in ('len', 'enumerate', 'zip', 'reversed') and x.args \
+                        and isinstance(x.args[0], ast.Name) and x.args[0].id in params:
+                    listy.add(x.args[0].id)
+                if isinstance(x, ast.Subscript) and isinstance(x.value, ast.Name) and x.value.id in params:
+                    listy.add(x.value.id)
+            for x in ast.walk(init):
+                if isinstance(x, ast.Assign) and isinstance(x.value, ast.Name) and x.value.id in listy and any(is_self_attr(t) for t in x.targets):
+                    rebound = any(isinstance(m, ast.Assign) and any(isinstance(t, ast.Name) and t.id == x.value.id for t in m.targets) for m in ast.walk(init))
+                    if not rebound:
+                        bad = True
+                        ctx.violation(rule, '%s:%s' % (c.name, x.value.id), '%s keeps the caller\'s list object (`%s`): if the caller edits the list afterwards, the text emitted for the block / what a later '
+                                      'evaluation reads no longer matches the children that were built from it' % (c.name, norm(x)), '%s:%s.__init__' % (c.rel, c.name),
+                                      witness=dict(history='ins = [a, b]; blk = %s(parent, name, ins, r); ins.append(c); generate Verilog / simulate' % c.name))
+    if not bad:
+        ctx.ok(rule, 'own-copy-of-list-arguments', '%d constructors: none stores a list-like argument without copying it' % n)
+    return n
+
+
 def find_func(tree, qual):
     parts = qual.split('.')
     node = tree
